@@ -23,6 +23,7 @@ What is demanded of the stored run is decided by the caller's property:
        there are slots holding it (absolute ledger over all live nodes),
        whatever the outcome; the workload also runs on the ASan build.
 """
+from .harness import safe_repr as _srepr  # noqa: E402
 import gc
 import sys
 from collections import Counter
@@ -349,7 +350,7 @@ def run_case(fam, impl, rng, rec, tag, *, ledger_mode=False, refuse=True,
         conn.fail_setstate = f_at
     desc.update(op=op, sweep_at_load=s_at, refuse_load=f_at,
                 leaves_only=leaves_only, directed=directed)
-    rec.journal(repr(desc))
+    rec.journal(_srepr(desc))
     refused0, sweeps0, loads0 = conn.loads_refused, conn.incall_sweeps, \
         conn.loads
     res = exc = None
